@@ -186,6 +186,19 @@ def append(r, F):
                   "the result of the final flush is discarded: a failed page write is acknowledged as flushed", ln=fn.blocks[fb].term.ln)
 
 
+def recovered_slots(r, F):
+    """TombstoneLog::open treats a slot as empty exactly when its sequence is 0: every other slot is recorded (and later returned to recovery)"""
+    fn = _coroutine(F, "foyer_storage::engine::block::tombstone::TombstoneLog::open")
+    pushes = [b.idx for b in fn.calls_to(r"Vec::<T, A>::push$") if any("Tombstone" in (fn.local_ty(a.place.local) or "") for a in b.term.args if a.place is not None)]
+    found = tables.find_cmp(fn, tables.role_field("sequence", "foyer_storage::engine::block::tombstone::Tombstone"), tables.role_const(0), "comparison of a slot's sequence with 0")
+    found = [(c, fl) for c, fl in found if c.op in ("Eq", "Ne")]
+    r.require(len(found) == 1 and bool(pushes), fn, "one empty-slot test", "a single sequence ? 0 test guards the recording of a slot", "TombstoneLog::open has %d empty-slot tests" % len(found), ln=fn.lo)
+    for c, fl in found:
+        tab = tables.table(fn, c, fl, pushes)
+        r.require(tab[1] == "no" and tab[2] != "no", fn, "slot recorded iff sequence != 0", "table (seq<0, =0, >0) -> recorded: %s" % (tab,),
+                  "TombstoneLog::open records a slot on (seq<0,=0,>0) = %s: written tombstones are skipped (deleted keys return after a restart) or empty slots are recovered as tombstones" % (tab,), ln=c.ln)
+
+
 def locate(r, F):
     """PageBuffer::locate maps a log page to (partition, byte offset): a page belongs to the current partition only while page < pages of that partition;
     at equality it is the FIRST page of the next partition (writing it at offset == partition size would land outside the partition and recovery, which reads
@@ -220,3 +233,4 @@ def run(chk, F):
     chk.run_rule("C10.locate", "a log page resolves to the partition that holds it: current partition iff page < its page count, else subtract and advance", 3, locate, F)
     from rules import mustcall
     mustcall.run_for(chk, F, "C10")
+    chk.run_rule("C10.recovered-slots", "open records exactly the slots whose sequence is not 0", 2, recovered_slots, F)
